@@ -12,3 +12,11 @@ Theorem C11_threaded_err : C11_threaded_err_stmt.  Proof. exact Proofs.C11.C11_t
 Theorem C11_notes : C11_notes_stmt.                Proof. exact Proofs.C11.C11_notes. Qed.
 Theorem C11_built_wf : C11_built_wf_stmt.          Proof. exact Proofs.C11.C11_built_wf. Qed.
 Theorem C11_bpm_self : C11_bpm_self_stmt.          Proof. exact Proofs.C11.C11_bpm_self. Qed.
+
+(** Chart level: every timed point of every successfully parsed chart (time-signature, text, section,
+    lyric, note start, star-power and track events of every track) stores the un-hinted query of its
+    tick, every note end is the un-hinted query at tick + longest sustain, every tempo event stores
+    its own index. *)
+From CP Require Import Spec.ChartTimed Proofs.ChartTimed.
+Theorem C11_chart : C11_chart_stmt.  Proof. exact Proofs.ChartTimed.C11_chart. Qed.
+Theorem C11_file : C11_file_stmt.    Proof. exact Proofs.ChartTimed.C11_file. Qed.
